@@ -328,6 +328,7 @@ pub fn sizes_trace(o: &Opts) -> R<()> {
     w.put(&json!({"ev": "begin"}));
     let mut total_values = 0usize;
     let mut culled = 0usize;
+    let mut total_lifted = 0usize;
     let per_op = per_opcode_programs();
     for i in 0..(n + per_op.len()) {
         let code = if i >= n {
@@ -351,7 +352,8 @@ pub fn sizes_trace(o: &Opts) -> R<()> {
             let stream = InstructionStream::try_from(code2.as_slice()).map_err(|e| format!("{:?}", e.payload))?;
             let mut vm = VM::new(stream, cfg, ScriptedWatchdog::new(1_000_000, None, 5_000_000)).map_err(|e| format!("{:?}", e.payload))?;
             let _ = vm.execute();
-            let vals = vm.consume().all_values();
+            let exec_result = vm.consume();
+            let vals = exec_result.clone().all_values();
             let mut pairs = std::collections::BTreeSet::new();
             let mut tops = std::collections::BTreeSet::new();
             let mut opaque_leaves = 0usize;
@@ -383,13 +385,29 @@ pub fn sizes_trace(o: &Opts) -> R<()> {
                     pairs.insert((nd.size(), values::count_nodes(nd)));
                 });
             }
-            Ok::<_, String>((vals.len(), pairs, tops, opaque_leaves, over))
+            // ... and lifting: every value as the type checker's lifting passes leave it
+            let mut lifted_n = 0usize;
+            let mut checker = storage_layout_extractor::tc::TypeChecker::new(storage_layout_extractor::tc::Config::default(), ScriptedWatchdog::new(1_000_000, None, 5_000_000));
+            if let Ok(lifted) = checker.lift(exec_result) {
+                for v in &lifted {
+                    lifted_n += 1;
+                    values::walk(v, &mut |nd| {
+                        pairs.insert((nd.size(), values::count_nodes(nd)));
+                    });
+                    let f = v.constant_fold();
+                    values::walk(&f, &mut |nd| {
+                        pairs.insert((nd.size(), values::count_nodes(nd)));
+                    });
+                }
+            }
+            Ok::<_, String>((vals.len(), pairs, tops, opaque_leaves, over, lifted_n))
         });
         match r {
-            Ok(Ok((nv, pairs, tops, leaves, over))) => {
+            Ok(Ok((nv, pairs, tops, leaves, over, lifted_n))) => {
                 total_values += nv;
+                total_lifted += lifted_n;
                 culled += leaves;
-                w.put(&json!({"ev": "sizes", "hex": hex::encode(&code), "limit": limit, "values": nv,
+                w.put(&json!({"ev": "sizes", "hex": hex::encode(&code), "limit": limit, "values": nv, "lifted": lifted_n,
                               "pairs": pairs.iter().map(|(a, b)| json!([a, b])).collect::<Vec<_>>(),
                               "tops": tops.iter().map(|(a, b, c)| json!({"size": a, "count": b, "ctor": c})).collect::<Vec<_>>(),
                               "over_limit_by_constructor": over, "culled_regrow": false}));
@@ -399,6 +417,6 @@ pub fn sizes_trace(o: &Opts) -> R<()> {
         }
     }
     let recs = w.finish();
-    println!("{}", json!({"programs": n + per_op.len(), "per_opcode_programs": per_op.len(), "records": recs, "values": total_values, "opaque_leaves_seen": culled}));
+    println!("{}", json!({"programs": n + per_op.len(), "per_opcode_programs": per_op.len(), "records": recs, "values": total_values, "lifted_values": total_lifted, "opaque_leaves_seen": culled}));
     Ok(())
 }
